@@ -201,6 +201,7 @@ func rulesC20(c *Ctx) {
 	shapeC20(c, cn)
 	syntheticC20(c, cn)
 	c.Rule("C20.parens", "ColumnNames looks through parentheses around a field's expression when it tests for a top()/bottom() call, as Field.Name does when it names the column: `(top(value, host, 2))` is the same selector and yields the same extra tag columns")
+	stripperTotalRule(c, "C20.parens")
 	parenTransparencyRule(c, "C20.parens", "(*SelectStatement).ColumnNames: selector call inside parentheses", p.SSAFunc(cn), "*Call", "the field expression is tested for *Call directly: for `SELECT (top(value, host, 2))` the tag argument gets no column, though Field.Name names the field `top` all the same")
 }
 
@@ -234,8 +235,38 @@ func syntheticC20(c *Ctx, cn *types.Func) {
 					}
 				}
 			}
+			// one Field per column: the block that hands the Field on (stores its
+			// address into the appended slice) must not run again without the
+			// allocation running again
+			for _, ref := range *a.Referrers() {
+				st, ok := ref.(*ssa.Store)
+				if !ok || st.Val != ssa.Value(a) || bad {
+					continue
+				}
+				ub := st.Block()
+				seen := map[*ssa.BasicBlock]bool{}
+				work := append([]*ssa.BasicBlock{}, ub.Succs...)
+				again := false
+				for len(work) > 0 {
+					x := work[len(work)-1]
+					work = work[:len(work)-1]
+					if seen[x] || (x == a.Block() && x != ub) {
+						continue
+					}
+					seen[x] = true
+					if x == ub {
+						again = ub != a.Block()
+						break
+					}
+					work = append(work, x.Succs...)
+				}
+				if again {
+					bad = true
+					c.Bad("C20.synthetic", key, st.Pos(), "the created Field is allocated once outside the loop that appends it: every column appended from it is the same Field and carries the name of the last tag argument")
+				}
+			}
 			if !bad {
-				c.OK("C20.synthetic", key, a.Pos(), "no alias stored")
+				c.OK("C20.synthetic", key, a.Pos(), "no alias stored; one Field per appended column")
 			}
 		}
 	}
